@@ -251,3 +251,51 @@ def dedup(xs):
         if not (x in out):
             out.append(x)
     return out
+
+
+# ---------------------------------------------------------------------------
+# C16: plain-text rendering
+def insertion_sorted(xs, key):
+    """stable sort by key (the harness assumes keys are pairwise distinct, so
+    stability is immaterial)"""
+    out = []
+    for x in xs:
+        k = key(x)
+        pos = len(out)
+        while pos > 0 and key(out[pos - 1]) > k:
+            pos = pos - 1
+        out.insert(pos, x)
+    return out
+
+
+def ref_basic_render(uni, rfunc, sort, bare_arrow=False):
+    """bare_arrow: render a vertex without neighbours as 'label ->' (no trailing blank)"""
+    if len(uni._vertices) == 0:
+        return None
+    verts = list(uni._vertices)
+    if sort is not None:
+        verts = insertion_sorted(verts, sort)
+    lines = []
+    for v in verts:
+        if rfunc is not None:
+            line = rfunc(v)
+        else:
+            line = repr(v)
+        nbs, exc = ref_neighbors(v, 0, 2, None)
+        if bare_arrow and len(nbs) == 0:
+            line = line + " ->"
+        else:
+            line = line + " -> "
+        if sort is not None:
+            nbs = insertion_sorted(nbs, sort)
+        first = True
+        for w in nbs:
+            if not first:
+                line = line + ", "
+            first = False
+            if rfunc is not None:
+                line = line + rfunc(w)
+            else:
+                line = line + repr(w)
+        lines.append(line)
+    return "\n".join(lines)
